@@ -83,6 +83,19 @@ Theorem C13_ids_never_collide_with_kills : forall hs name1 name2 id,
   bget name1 (lane_ids r) = Some id -> bget name2 (lane_ids r) = Some id -> name1 = name2.
 Proof. exact ids_never_collide_with_kills. Qed.
 
+(* a process killed outright - after every operation so far was acknowledged, before anything of the next was written -
+   loses nothing: the next process finds what a clean reopening finds, and a whole history of such kills leaves the
+   database as the same history with reopenings does (the implementation's side of this clause is the oracle
+   kill_spec_bad on histories run in a child process that is killed with SIGKILL) *)
+Theorem C13_outright_kill_loses_nothing : forall r o,
+  let r' := rocks_kill r 0 o in
+  value_ks r' = value_ks r /\ map_ks r' = map_ks r /\ lane_ids r' = lane_ids r /\ lane_counter r' = lane_counter r.
+Proof. exact outright_kill_loses_nothing. Qed.
+
+Theorem C13_outright_kills_are_reopenings : forall hs, only_outright hs = true ->
+  forall r, hrun_state r hs = rocks_run_state r (map as_sop hs).
+Proof. exact outright_kills_are_reopenings. Qed.
+
 (* the store NAME of an item is "<agent>/<item>": not injective in (agent, item) - known finding *)
 Theorem C13_F1_name_not_injective_refuted :
   exists a n a' n', (a, n) <> (a', n') /\ lane_name a n = lane_name a' n'.
